@@ -36,6 +36,7 @@ EVIDENCE = dict(
 )
 
 PLACEHOLDER = "\U0010eeee"
+_ORIG_CWD = os.getcwd()
 _tty = None
 
 
@@ -598,6 +599,15 @@ def _make_pool(td, spec):
             p = os.path.join(td, f"img{i}.jpg")
             img.save(p, format="JPEG")
             pool.append(dict(kind=kind, image=None, path=p))
+        elif kind.startswith("rel"):
+            # different files under the SAME relative name in different directories, with equal mtime: requested by
+            # the relative name from inside their directory ("rel0" -> dir d0, "rel1" -> dir d1, …)
+            sub = os.path.join(td, "d" + kind[3:])
+            os.makedirs(sub, exist_ok=True)
+            p = os.path.join(sub, "same-name.png")
+            img.save(p, format="PNG")
+            os.utime(p, (1_700_000_000, 1_700_000_000))
+            pool.append(dict(kind=kind, image=None, path=p, rel="same-name.png", cwd=sub))
     return pool
 
 
@@ -724,6 +734,10 @@ def check_case(ctx: Ctx, c: dict):
                     continue
                 e = pool[req["img"] % len(pool)] if "img" in req else None
                 arg = (e["image"] if e["image"] is not None else e["path"]) if e else None
+                if e and e.get("rel"):
+                    # the caller names the file relative to its working directory
+                    os.chdir(e["cwd"])
+                    arg = e["rel"]
                 if op == "upload_and_display":
                     token, size, mode = _expected_token(e)
                     kr = dict(entry=e, display=True)
@@ -804,6 +818,7 @@ def check_case(ctx: Ctx, c: dict):
         for T in terms:
             T["t"].id_manager.close()
     finally:
+        os.chdir(_ORIG_CWD)
         clock.uninstall()
         shutil.rmtree(td, ignore_errors=True)
         for f in Path(tempfile.gettempdir()).glob("tty-graphics-protocol-*"):
@@ -1001,6 +1016,9 @@ def cases(ctx: Ctx):
         if rng.random() < 0.15:
             cfg["num_tmux_layers"] = rng.choice([1, 2])
         pool = []
+        if rng.random() < 0.15:
+            for dj in range(rng.choice([2, 3])):
+                pool.append([f"rel{dj}", 8, 8, rng.randrange(1 << 30)])
         for j in range(rng.randrange(2, 7)):
             kind = rng.choice(["png", "png", "jpeg", "mem-rgb", "mem-rgba"])
             w, h = rng.choice([(8, 8), (12, 5), (30, 30), (5, 17), (40, 25)])
